@@ -386,6 +386,9 @@ func (p *Program) specSort(vc *VC, pkgPath string, t *SType) (string, string, ty
 		return "Str", "", types.Typ[types.String]
 	case "mathint":
 		return "Int", "", nil
+	case "any":
+		t := types.NewInterfaceType(nil, nil)
+		return vc.sortOf(t), "", t
 	}
 	gt := p.resolveType(pkgPath, txt)
 	if gt == nil {
